@@ -845,13 +845,13 @@ package proxy
 // C04 (ii): every worker trips the latch on every exit path. The requires clauses of the spawned literals are
 // proof obligations at the two go statements of Run.
 //@ contract (*proxyStreamReceiver).Run$2
-//@   shape sig=()();loops=;lits=1;fv=
+//@   shape sig=()();loops=;lits=1;fv=;outerlits=5
 //@   props C04
 //@   requires r != nil
 //@   requires !(r.sourceShardID.ClusterID == 0 && r.sourceShardID.ShardID == 0) && r.ackByTarget != nil && allocated(r.ackByTarget)
 //@   ensures @latch_tripped: shutdownChan.tripped
 //@ contract (*proxyStreamReceiver).Run$4
-//@   shape sig=()();loops=;lits=1;fv=
+//@   shape sig=()();loops=;lits=1;fv=;outerlits=5
 //@   props C04
 //@   requires r != nil
 //@   requires r.ackByTarget != nil && r.lastSentMin == r.lastSent && (r.lastSentAck != nil ==> ackOf(r.lastSentAck) == r.lastSent)
@@ -1014,7 +1014,7 @@ package proxy
 //@   ensures result != nil
 //@   assigns nothing
 //@ contract startListener$1
-//@   shape sig=()();loops=forc;lits=0;fv=
+//@   shape sig=()();loops=forc;lits=0;fv=;outerlits=1
 //@   props C06
 //@   wakeup shutdownChan.Channel()
 //@   requires shutdownChan != nil && receiver != nil && open(targetStreamServerData)
@@ -1139,7 +1139,7 @@ package proxy
 //@ extern (*intraProxyStreamReceiver).Run@(*intraProxyManager).ensureStream$1(r, ctx, sm, conn)
 //@   assigns *
 //@ contract (*intraProxyManager).ensureStream$1
-//@   shape sig=()();loops=;lits=0;fv=
+//@   shape sig=()();loops=;lits=0;fv=;outerlits=1
 //@   props C08 C09
 //@   requires ps != nil && recv != nil && m != nil
 //@   deletepre receivers: @only_own_receiver: $map[$key] == recv
